@@ -165,8 +165,8 @@ func deriveOptions(used, want *neat.Options) *neat.Options {
 }
 
 func genC17() *rapid.Generator[C17Case] {
-	main := genScenario(ScenarioCfg{MaxEpochs: pick(20, 30), Parallel: 0, Structural: true, Warm: true})
-	other := genScenario(ScenarioCfg{MaxEpochs: 2, Parallel: 1, Structural: true, MaxPop: 8})
+	main := genScenario(ScenarioCfg{MaxEpochs: pick(20, 30), Parallel: 0, Structural: true, Warm: true, Retry: true})
+	other := genScenario(ScenarioCfg{MaxEpochs: 2, Parallel: 1, Structural: true, MaxPop: 8, CancelTail: true})
 	modular := genGenomeSpec(GenomeCfg{Modules: true, MinGenes: 1, MaxHidden: 2, MaxGenes: 8, ModestWeight: true})
 	return rapid.Custom(func(t *rapid.T) C17Case {
 		c := C17Case{Sc: main.Draw(t, "scenario")}
@@ -268,12 +268,24 @@ func CheckC17(c C17Case, rec *Rec) error {
 		uo := defaultOpts()
 		uo.PopSize, uo.CompatThreshold, uo.SurvivalThresh, uo.DropOffAge = 7, 0.5, 0.6, 3
 		u := uo.Build()
+		uo.MutateAddNodeProb, uo.MutateAddLinkProb, uo.MutateOnlyProb = 0.9, 0.5, 0.9
+		u = uo.Build()
 		if pop, err := genetics.NewPopulation(xorStart().Build(), u); err == nil {
 			for e := 0; e < 2; e++ {
 				for i, o := range pop.Organisms {
 					o.Fitness = float64(1 + (i*5+e)%7)
 				}
 				_ = ex.NextEpoch(u.NeatContext(), e, pop)
+			}
+			// ... and whose last turnovers (generation numbers 1 and 0, as a new trial would count from 0 again) were cancelled half way,
+			// after some structural mutations had taken place
+			for _, e := range []int{1, 0} {
+				for i, o := range pop.Organisms {
+					o.Fitness = float64(1 + (i*3+e)%5)
+				}
+				cctx := &countdownCtx{Context: u.NeatContext(), closed: closedChan}
+				cctx.left.Store(int64(4 + sc.Seed%5))
+				_ = ex.NextEpoch(cctx, e, pop)
 			}
 		}
 		preparedExecutor = ex
